@@ -3,9 +3,9 @@
   Target shape of every theorem:   Spec.Cxx.check (modelStep w env s f tx) = []
 
   Each property comes in two forms (rule 3 of the task):
-  * `sat_Cxx`   — the clean form `= []`, under invariants / wiring / stated preconditions and ONE
+  * `sat_Cxx`   — the clean form `= []`, under invariants / wiring / stated preconditions and at most ONE
                   sub-case hypothesis that excludes the place where the model (and the implementation it
-                  mirrors) violates the property;
+                  mirrors) violates the property (C11 and C17 need none);
   * `Cxx_tags`  — the general form `∀ tag ∈ check, tag ∈ [the tags that can occur]` without the sub-case
                   hypothesis, together with `…_witness` theorems exhibiting a concrete world for every tag.
   Helper files (build order): Perp/Props/SatTrace, SatFlows, C15Band, SatC17, SatC11, SatC15, SatBuffer,
@@ -38,11 +38,19 @@ Hypotheses of the clean form (all defined, with their justification, in `Perp/Pr
 * `SatC11.SenderOutside w s` — **wiring** (kind b, implied by `Wired w ∧ UserSender w s`,
   `SatC11.SenderOutside.of_wired`): the sender is not the vault / configured insurance fund / fee pool.
   Needed by clause `funding-skipped-when-closing-by-reversal` (the payout is read off the transfer list).
-* `w.engine.cfg.mmr ≠ 0` — **sub-case** (rule 3), for clause
-  `funding-skipped-when-closing-by-reversal`: with a maintenance ratio of 0 an order against an opposite
-  record can end at size exactly 0 without going through the closing branch of the reversal (a reduce that
-  rounds to the whole size, `SatEWitness.c11_witness`; a second leg that buys 0 base); then the margin
-  stays in a zero-size record and the trader is not paid.
+* `Mirror.NoZeroVamm w` — **invariant** (kind a), a component of `Mirror.Inv`: no vAMM lives at address 0,
+  the engine's "no record" sentinel.  Needed by clause `funding-skipped-when-closing-by-reversal`: a record
+  stored under vAMM address 0 is taken by `get_position` for an absent one, so the engine runs an increase
+  where the property — reading the stored record — expects a reduce or a reversal; counterexample without it
+  (with a non-zero maintenance ratio): `SatEWitness.c11_needs_noZeroVamm`.
+NO sub-case hypothesis is left.  The former one, `w.engine.cfg.mmr ≠ 0`, excluded outcomes the old predicate
+mis-classified as "closed by a reversal" (size 0 after an opposite order: an order against a zero-size record,
+a reduce or a second leg that rounds the size to 0 — the final margin-ratio guard lets them through only with
+a maintenance ratio of 0).  `Spec.C11.check` now follows the engine's own case distinction (flat / same side /
+position worth more than the order ⇒ reduce / otherwise reversal, close-only iff `|N − out| / leverage = 0`),
+`SatC11.open_core` proves that the model takes the same branch (the engine's valuation after funds attachment
+equals the property's on the pre-state, `SatC11.start_outputAmount`; `SatC11.openPosition_branch`,
+`SatC11.rev_branch_inv`), and the former witness now passes: `c11_rounded_reduce_ok`.
 The former second sub-case hypothesis `SatC11.StaleClean w s tx` (a zero-size record carries no notional)
 is no longer needed: `open_position` treats a stored record of size zero like an absent one, so the
 reversal path — the only one on which the engine's PnL (0 for a zero-size record) and the property's formula
@@ -52,12 +60,13 @@ passes: `c11_stale_notional_ok`.
 
 theorem sat_C11 (w : World) (env : Env) (s : Nat) (f : Funds) (tx : Tx) (hwf : WF w)
     (hbh : SatC11.BufferHalf w) (hnf : SatC11.NoFundsAttached w f tx) (hso : SatC11.SenderOutside w s)
-    (hmmr : w.engine.cfg.mmr ≠ 0) :
+    (hnz : Mirror.NoZeroVamm w) :
     Spec.C11.check (modelStep w env s f tx) = [] := by
   have _ := hwf
-  exact SatC11.sat_C11 w env s f tx hbh hnf hso hmmr
+  exact SatC11.sat_C11 w env s f tx hbh hnf hso hnz
 
-/-- general form: only the reversal-payout clause can fail -/
+/-- general form, without the deployment facts `SenderOutside` / `NoZeroVamm`: only the reversal-payout clause
+    can fail (and does without `NoZeroVamm`: `c11_needs_noZeroVamm`) -/
 theorem C11_tags (w : World) (env : Env) (s : Nat) (f : Funds) (tx : Tx) (hwf : WF w)
     (hbh : SatC11.BufferHalf w) (hnf : SatC11.NoFundsAttached w f tx) :
     ∀ tag ∈ Spec.C11.check (modelStep w env s f tx), tag ∈ ["funding-skipped-when-closing-by-reversal"] := by
@@ -69,11 +78,18 @@ theorem bufferHalf_preserved (w : World) (env : Env) (s : Nat) (f : Funds) (tx :
     (hb : SatC11.BufferHalf w) : SatC11.BufferHalf (step w env s f tx) :=
   SatBuffer.bufferHalf_step w env s f tx hb
 
-/-- the tag occurs (maintenance ratio 0, reduce that rounds to the whole size) -/
-theorem c11_witness :
+/-- the former witness of the tag (maintenance ratio 0, a reduce that the vAMM rounds up to the whole size,
+    leaving a zero-size record that keeps its margin): nothing was closed by a reversal, the check is empty -/
+theorem c11_rounded_reduce_ok :
     Spec.C11.check (modelStep SatEWitness.b0 ⟨2, 1000⟩ 100 ⟨0, false⟩
         (.engine (.openPosition 10 .sell 780048891 SatEWitness.D 0)))
-      = ["funding-skipped-when-closing-by-reversal"] := SatEWitness.c11_witness
+      = [] := SatEWitness.c11_rounded_reduce_ok.1
+
+/-- the tag occurs without `NoZeroVamm` (a record stored under vAMM address 0, maintenance ratio 5 %) -/
+theorem c11_needs_noZeroVamm :
+    Spec.C11.check (modelStep SatEWitness.z0 ⟨2, 1000⟩ 100 ⟨0, false⟩
+        (.engine (.openPosition 0 .sell 78004890 (10 * SatEWitness.D) 0)))
+      = ["funding-skipped-when-closing-by-reversal"] := SatEWitness.c11_needs_noZeroVamm.1
 
 /-- the former counterexample to `sat_C11` without `StaleClean` (a zero-size record that still carries
     margin and notional, then a tiny opposite order): the order is now an increase and the check is empty -/
